@@ -8,6 +8,7 @@ import (
 	"io"
 	"sort"
 	"time"
+	"verif/sim/simrt"
 
 	"github.com/ipld/go-storethehash/store"
 	mhprimary "github.com/ipld/go-storethehash/store/primary/multihash"
@@ -169,23 +170,35 @@ func (d *Driver) OpenWith(c StoreCfg) error {
 // ageStore writes, into an empty directory, the state of a store whose first
 // n index and primary files were released by GC (see StoreCfg.Aged).
 func ageStore(c StoreCfg) {
-	fs := fsOf()
-	if fs == nil || c.Aged <= 0 {
+	if c.Aged <= 0 {
 		return
 	}
-	if _, ok := fs.ReadFileDirect(indexPath + ".info"); ok {
-		return // not the first open
+	// everything is formatted here, on the task side; the writes themselves run
+	// on the scheduler goroutine, which owns the file system's state (and must
+	// not use fmt: its synchronisation is hidden from the race detector, and
+	// fmt's printer pool would hand objects between it and the tasks)
+	type wf struct {
+		path string
+		data []byte
 	}
-	if len(fs.Files()) != 0 {
-		return
+	ws := []wf{
+		{indexPath + ".info", []byte(fmt.Sprintf(`{"Version":3,"BucketsBits":%d,"MaxFileSize":%d,"FirstFile":%d,"PrimaryFileSize":%d}`, c.Bits, c.IndexFile, c.Aged, c.PrimaryFile))},
+		{fmt.Sprintf("%s.%d", indexPath, c.Aged), nil},
 	}
-	ifile, pfile := c.IndexFile, c.PrimaryFile
-	fs.WriteFileDirect(indexPath+".info", []byte(fmt.Sprintf(`{"Version":3,"BucketsBits":%d,"MaxFileSize":%d,"FirstFile":%d,"PrimaryFileSize":%d}`, c.Bits, ifile, c.Aged, pfile)))
-	fs.WriteFileDirect(fmt.Sprintf("%s.%d", indexPath, c.Aged), nil)
 	if c.Primary != "CID" {
-		fs.WriteFileDirect(dataPath+".info", []byte(fmt.Sprintf(`{"Version":1,"MaxFileSize":%d,"FirstFile":%d}`, pfile, c.Aged)))
-		fs.WriteFileDirect(fmt.Sprintf("%s.%d", dataPath, c.Aged), nil)
+		ws = append(ws,
+			wf{dataPath + ".info", []byte(fmt.Sprintf(`{"Version":1,"MaxFileSize":%d,"FirstFile":%d}`, c.PrimaryFile, c.Aged))},
+			wf{fmt.Sprintf("%s.%d", dataPath, c.Aged), nil})
 	}
+	simrt.Yield(&simrt.Op{Kind: "harness.age", Apply: func() {
+		fs := fsOf()
+		if fs == nil || fs.FileCount() != 0 {
+			return // not the first open of an empty directory
+		}
+		for _, w := range ws {
+			fs.WriteFileDirect(w.path, w.data)
+		}
+	}})
 }
 
 func (d *Driver) OpenWithCtx(ctx context.Context, c StoreCfg) error {
